@@ -32,6 +32,9 @@ CLAIMED = {
  "C17": ("rhp", "Contracts.tla skeletons enumerated/simulated by TLC, executed on the real RHP4 constructors; results validated by TLC (ContractsTrace.tla over BigNat: post-conditions + transcribed consensus rules) and submitted to the real ValidateV2Transaction; design model ContractsDesign.tla model-checked",
          "Every constructor result satisfies the relational post-conditions (totals, exact usage charge, risked collateral, missed host value, rollover split and cap, cost equation) and the TLA+ transcription of consensus validity, and is accepted by the real validator on a real chain; short funding fails cleanly; v2/v3 tax inversion checked.",
          "Trusted: parameter generator filtered by the real Validate methods, BigNat, TLC. Magnitudes below 2^110.", "DESIGN.md 4.7, 5/C17"),
+ "C09": ("pure", "Purity.tla memo-function specification model-checked (honest and dishonest implementations); interleaved begin/end logs of concurrent real calls (1/2/8/32 goroutines under the race detector, on the same memory and on decoded / shared / deep-copied / JSON copies) validated by TLC (PurityTrace.tla); reflection probes of the copy operations",
+         "Every recorded call leaves its inputs' deep digest unchanged and returns the result recorded for the same content key, across goroutine counts and copies; the per-transaction path gives the block's verdict; Copy/DeepCopy results share no slice memory with their originals. Found and fixed the shallow element Copy methods.",
+         "Trusted: the Go race detector for race detection (the model only judges the logs), the harness's reflection digest, TLC. Pointer/interface sharing of DeepCopy is reported as information.", "DESIGN.md 4.10, 5/C09"),
  "C11": ("wire", "Wire.tla schema interpreter: TLC validates bytes = Enc(schema, value) for recorded real encodings of all 177 wire types (direction B) and enumerates small shapes whose bytes the real decoders must decode and re-encode identically (direction A); round trip, canonicity, single-field influence and truncation decided on the real code",
          "The byte layout of every registered wire type equals the independently written schema; decode(encode(v)) = v up to the explicit normalisation table; every transmitted leaf field changes the bytes; every proper prefix fails to decode; bool bytes other than 0/1 are rejected.",
          "Trusted: wirebridge reflection walker (schema and Go struct walked in lock-step), TLC. Unexported rhp2/rhp3 response wrappers not covered.", "DESIGN.md 4.8, 5/C11"),
